@@ -35,6 +35,8 @@ def uniq_guarded(f, pt):
 
 
 def rules(ctx):
+    from . import C06
+    C06.c063(ctx)     # the scan's components (mem, imm, version, timestamp) are captured in one critical section
     c071(ctx)
     C08.c085(ctx, R="C07.2")
     C03.c031_store(ctx)
